@@ -69,7 +69,7 @@ impl ChainStorage {
             crate::verif::ev(
                 "fetched",
                 &format!(
-                    "\"h\":{},\"file\":\"{}\",\"off\":\"{}\",\"hash\":\"{}\",\"prev\":\"{}\",\"size\":{},\"ntx\":{},\"open\":[{}],\"fds\":{}",
+                    "\"h\":{},\"file\":\"{}\",\"off\":\"{}\",\"hash\":\"{}\",\"prev\":\"{}\",\"size\":{},\"ntx\":{},\"open\":[{}],\"fds\":{},\"blkfds\":{}",
                     height,
                     self.chain_index.get(height).unwrap().blk_index,
                     self.chain_index.get(height).unwrap().data_offset,
@@ -78,7 +78,8 @@ impl ChainStorage {
                     block.size,
                     block.txs.len(),
                     open.join(","),
-                    crate::verif::fds()
+                    crate::verif::fds(),
+                    crate::verif::blk_fds()
                 ),
             );
         }
